@@ -229,7 +229,7 @@ func drawWorkload(t *rapid.T) *kit.Case {
 }
 
 func TestWorkloads(t *testing.T) {
-	kit.Rapid(t, "workloads", 1500, 24000, func(t *rapid.T) {
+	kit.Rapid(t, "workloads", 1500, 72000, func(t *rapid.T) {
 		c := drawWorkload(t)
 		maxInFlight = 0
 		if kit.Check(t, c) {
